@@ -166,12 +166,33 @@ class Obligation:
         return "%s %s: %s [%s]" % ("OK " if self.ok else "FAIL", self.kind, self.text, self.where)
 
 
+def _strip_generics(path: str) -> str:
+    """`Iter::<T, U>::helper` -> `Iter::helper`"""
+    out, depth = [], 0
+    i = 0
+    while i < len(path):
+        c = path[i]
+        if c == "<" and path[i - 2:i] == "::":
+            depth += 1
+            if depth == 1:
+                out = out[:-2]
+        elif c == ">" and depth:
+            depth -= 1
+        elif depth == 0:
+            out.append(c)
+        i += 1
+    return "".join(out)
+
+
 class Interp:
     """Abstract interpreter for one MIR body."""
 
     def __init__(self, mir: dict, fn_name: str, self_fields: List[str], table_fn: Optional[str], own_methods: Dict[str, str],
-                 sym_const: Optional[Tuple[int, Lin]] = None):
+                 sym_const: Optional[Tuple[int, Lin]] = None, helpers: Optional[Dict[str, dict]] = None, depth: int = 0):
         self.mir = mir
+        # private helper fns of the generated iterator (constructors and the like), by path: their MIR is interpreted in place
+        self.helpers = helpers or {}
+        self.depth = depth
         # symbolic length: the integer constant equal to the witness' N is read as the symbol N
         self.sym_const = sym_const
         self.fn = fn_name
@@ -624,6 +645,25 @@ class Interp:
                 v = self.read_place(st, v[1])
             self.write_place(st, dest, v if v[0] == "lin" else ("unknown", "clone"))
             return [(tgt, st)]
+        hk = _strip_generics(fn)
+        if hk in self.helpers and self.depth < 3 and all(a[0] in ("lin", "bool", "adt", "unknown", "tuple", "selfref") for a in args):
+            sub = Interp(self.helpers[hk], fn.split("::")[-1], self.self_fields, self.table_fn, self.own_methods, self.sym_const, self.helpers, self.depth + 1)
+            entry = State({k_: v_ for k_, v_ in st.env.items() if k_[0] == "S"}, st.cons, st.notes)
+            for i_, a in enumerate(args):
+                entry.env[("L", i_ + 1)] = a
+            sub.run(entry)
+            self.obligations += sub.obligations
+            self.unmodelled += sub.unmodelled
+            outs = []
+            for r in sub.returns:
+                s2 = State(st.env, r.cons, r.notes)
+                for k_, v_ in r.env.items():
+                    if k_[0] == "S":
+                        s2.env[k_] = v_
+                self.write_place(s2, dest, r.env.get(("L", 0), ("unknown", "call")))
+                if s2.feasible():
+                    outs.append((tgt, s2))
+            return outs
         # anything else: havoc the destination; a call that receives &mut self may change the cursors
         self.unmodelled.append("call to %s" % short)
         self.write_place(st, dest, ("unknown", "call"))
